@@ -1,6 +1,7 @@
 package main
 
 import (
+	"os"
 	"fmt"
 	"sort"
 	"strconv"
@@ -210,9 +211,12 @@ func (in *inst) place(cur map[string]cluster.NodeInfo) string {
 	info, _ := in.reg.GetNamespacePartInfo(nsName, 0)
 	var first string
 	for i := 0; i < 3; i++ {
-		l, err := in.coord.VerifPartitionPlacement(info, cur)
+		var l [][]string
+		var err *cluster.CoordErr
 		s := "x"
-		if err == nil {
+		if _, p := hx.Recover(func() { l, err = in.coord.VerifPartitionPlacement(info, cur) }); p {
+			s = "panic"
+		} else if err == nil {
 			if len(l) < 1 {
 				s = "short"
 			} else {
@@ -411,7 +415,7 @@ func (in *inst) exec(e *event) string {
 		}
 	})
 	if panicked {
-		_ = msg
+		if os.Getenv("VERIF_DEBUG") != "" { fmt.Fprintln(os.Stderr, "PANIC:", msg) }
 		ret = "panic"
 	}
 	return ret + " | " + in.writesStr() + " | " + in.stateStr()
